@@ -41,7 +41,8 @@ func init() {
 		"template engine (Views), view bindings":                                                                               "rendered through a template file (no engine configured)",
 	}
 	harness.Register(&harness.Engine{
-		Name: "iso", Property: "C05", Level: "exploration", Main: isoMain, MaxSimTime: 10 * time.Minute,
+		Name: "iso", Property: "C05", Level: "exploration", Main: isoMain, MaxSimTime: 10 * time.Minute, DrainTime: 25 * time.Second, // lets fasthttp's file-handler cache (SendFile) expire and close its files before the run is abandoned
+
 		Rule: "per run the tape draws the configuration (Immutable, CaseSensitive, StrictRouting, UnescapePath), 1-4 connection tasks and up to 40 (thorough: 70) requests of about 25 kinds (parameterised / optional / wildcard routes, locals and response headers set by middleware, query/header/cookie/form/JSON binding incl. auto-handling, failing binds and unbalanced-bracket queries, redirects with flash messages and old input, flash display with valid / truncated / forged / missing-field cookies, view bindings rendered through a template file, SendFile, SendFile with options, failing and panicking handlers, 404 with a flash cookie, wrong and unknown methods, malformed requests; proxy headers, ProxyHeader / IP validation; with or without a middleware in front of everything, with or without a custom ErrorHandler that observes too); " +
 			"each request is first served by a fresh application with emptied pools (reference), then the whole history runs concurrently on one application with handlers yielding in the middle; distinct = hash of (configuration, sequence of (connection, kind)); non-trivial = a pooled context was reused by a request of another kind",
 		Assumptions: []string{
@@ -53,7 +54,8 @@ func init() {
 		Components: comps,
 	})
 	harness.Register(&harness.Engine{
-		Name: "immut", Property: "C06", Level: "exploration", Main: immutMain, MaxSimTime: 10 * time.Minute,
+		Name: "immut", Property: "C06", Level: "exploration", Main: immutMain, MaxSimTime: 10 * time.Minute, DrainTime: 25 * time.Second, // lets fasthttp's file-handler cache (SendFile) expire and close its files before the run is abandoned
+
 		Rule: "same driver as iso; with Immutable (70 % of the runs) every handler keeps the values of 25 accessors without copying them, next to a deep copy, and all kept values are compared with their copies (and with what the generator put on the wire) after every later request and at the end; without Immutable the values read at handler entry are read again after the handler yielded to other requests. " +
 			"distinct = hash of (configuration, sequence of (connection, kind, sizes)); non-trivial = a later request of different length reused the same connection and context",
 		Assumptions: []string{
